@@ -52,9 +52,10 @@ def leftsibling(node):
     >>> print(util.leftsibling(joe))
     Node('/Dan/Jan')
     """
-    if node.parent:
-        pchildren = node.parent.children
-        idx = pchildren.index(node)
+    parent = node.parent
+    if parent is not None:
+        pchildren = parent.children
+        idx = _index(pchildren, node)
         if idx:
             return pchildren[idx - 1]
     return None
@@ -78,12 +79,21 @@ def rightsibling(node):
     >>> print(util.rightsibling(joe))
     None
     """
-    if node.parent:
-        pchildren = node.parent.children
-        idx = pchildren.index(node)
+    parent = node.parent
+    if parent is not None:
+        pchildren = parent.children
+        idx = _index(pchildren, node)
         try:
             return pchildren[idx + 1]
         except IndexError:
             return None
     else:
         return None
+
+
+def _index(nodes, node):
+    # identity, not equality: nodes may define their own __eq__
+    for idx, item in enumerate(nodes):
+        if item is node:
+            return idx
+    raise ValueError("%r is not in %r" % (node, nodes))
